@@ -42,18 +42,29 @@ def verifierDrop (checksPanicking : Bool) (expected cnt : Nat) (panicking : Bool
     if panicking && checksPanicking then ExitOut.ok else ExitOut.panicMismatch expected cnt
   else ExitOut.ok
 
-/-- A lifetime evaluating one `fake!(…, times: N)` call site: the counter is a static of the
-    call site; `resetOnInstall` says whether installation stores 0 into it. -/
-def lifetime (resetOnInstall : Bool) (n : Nat) (cntBefore : Nat) (calls : List Bool) : List CallOut × Nat :=
-  runCalls n (if resetOnInstall then 0 else cntBefore) calls
+/-- Successive installations built by one `fake!(…, times: N)` call site within one lifetime
+    (a helper or a loop installing it on one function after another): the counter is a static
+    of the call site shared by all of them; `resetOnInstall` says whether each installation
+    stores 0 into it.  `installs` = for each installation, the calls made before the next one. -/
+def runInstalls (resetOnInstall : Bool) (n : Nat) : Nat → List (List Bool) → List (List CallOut) × Nat
+  | cnt, [] => ([], cnt)
+  | cnt, calls :: rest =>
+    let r := runCalls n (if resetOnInstall then 0 else cnt) calls
+    let rs := runInstalls resetOnInstall n r.2 rest
+    (r.1 :: rs.1, rs.2)
 
-/-- consecutive lifetimes of the same call site, each `(N, calls, unwinding)`: `unwinding` says
-    the scope is left by a panic raised in the body (the verifier is then dropped while
-    `thread::panicking()`); returns each lifetime's call outcomes and exit verdict -/
-def lifetimes (resetOnInstall checksPanicking : Bool) : Nat → List (Nat × List Bool × Bool) → List (List CallOut × ExitOut)
+/-- scope-exit verdict of a lifetime: nothing to verify when nothing was installed -/
+def exitVerdict (checksPanicking : Bool) (n : Nat) (installs : List (List Bool)) (cnt : Nat) (unw : Bool) : ExitOut :=
+  if installs.isEmpty then ExitOut.ok else verifierDrop checksPanicking n cnt unw
+
+/-- consecutive lifetimes of the same call site, each `(N, installs, unwinding)`: `unwinding`
+    says the scope is left by a panic raised in the body (the verifiers are then dropped while
+    `thread::panicking()`); returns each lifetime's call outcomes per installation and its
+    exit verdict -/
+def lifetimes (resetOnInstall checksPanicking : Bool) : Nat → List (Nat × List (List Bool) × Bool) → List (List (List CallOut) × ExitOut)
   | _, [] => []
-  | cnt, (n, calls, unw) :: rest =>
-    let r := lifetime resetOnInstall n cnt calls
-    (r.1, verifierDrop checksPanicking n r.2 unw) :: lifetimes resetOnInstall checksPanicking r.2 rest
+  | cnt, (n, installs, unw) :: rest =>
+    let r := runInstalls resetOnInstall n cnt installs
+    (r.1, exitVerdict checksPanicking n installs r.2 unw) :: lifetimes resetOnInstall checksPanicking r.2 rest
 
 end Inj.Counter
